@@ -590,6 +590,7 @@ func (s *Subscription) Event(event *rescache.ResourceEvent) {
 }
 
 func (s *Subscription) processEvent(event *rescache.ResourceEvent) {
+	verifSub("sub.event", s)
 	// Discard events targeting a different internal version
 	if s.version != event.Version {
 		verifSub("sub.versionDiscard", s)
